@@ -273,6 +273,7 @@ def run(ctx: Ctx) -> None:
     quick = ctx.quick
     if any(m.startswith("sqlglot.dialects.") and m not in ("sqlglot.dialects.dialect",) for m in sys.modules):
         raise HarnessError("the check process has already imported a dialect module; executions would not start cold")
+    sched.extent_writers()   # AST scan once in the parent; the forked executions inherit the result
     auto_info = discover_auto(ctx)
     harnesses = HARNESSES + ([] if quick else THOROUGH_EXTRA) + AUTO
     if os.environ.get("VERIF_DEBUG_ONLY"):   # development aid; never set by a registered command
@@ -362,6 +363,7 @@ def run(ctx: Ctx) -> None:
 
 
 def replay(ctx: Ctx, case: dict) -> bool:
+    sched.extent_writers()   # scan once in the parent; the forked executions inherit the result
     if case.get("auto"):
         AUTO.append((case["harness"], [b_transpile(s_, d_, d_) for s_, d_ in case["auto"]]))
     allh = all_harnesses()
